@@ -1628,15 +1628,28 @@ func (u *Unit) divmod(f *Frame, st *State, a, b string, ty types.Type, wantMod b
 		}
 		return fmt.Sprintf("(tdiv %s %s)", a, b)
 	}
-	q := u.em.fresh("q", "Int")
-	r := u.em.fresh("r", "Int")
+	u.em.pre("(declare-fun udiv (Int Int) Int)")
+	u.em.pre("(declare-fun umod (Int Int) Int)")
+	u.em.pre("(declare-fun sdiv (Int Int) Int)")
+	u.em.pre("(declare-fun smod (Int Int) Int)")
+	u.em.pre("(assert (forall ((a Int) (b Int)) (! (=> (and (>= a 0) (> b 0)) (and (= a (+ (* b (udiv a b)) (umod a b))) (<= 0 (umod a b)) (< (umod a b) b) (<= 0 (udiv a b)) (<= (udiv a b) a))) :pattern ((udiv a b)) :pattern ((umod a b)))))")
+	u.em.pre("(assert (forall ((a Int) (b Int)) (! (=> (not (= b 0)) (and (= a (+ (* b (sdiv a b)) (smod a b))) (ite (>= a 0) (and (<= 0 (smod a b)) (< (smod a b) (ite (>= b 0) b (- b)))) (and (< (- (ite (>= b 0) b (- b))) (smod a b)) (<= (smod a b) 0))) (=> (and (>= a 0) (> b 0)) (and (>= (sdiv a b) 0) (<= (sdiv a b) a))))) :pattern ((sdiv a b)) :pattern ((smod a b)))))")
+	var q, r string
 	if isUnsigned(ty) {
-		u.assume(st, fmt.Sprintf("(=> (> %s 0) (and (= %s (+ (* %s %s) %s)) (<= 0 %s) (< %s %s) (<= 0 %s)))", b, a, q, b, r, r, r, b, q))
+		q, r = fmt.Sprintf("(udiv %s %s)", a, b), fmt.Sprintf("(umod %s %s)", a, b)
 	} else {
-		absb := fmt.Sprintf("(ite (>= %s 0) %s (- %s))", b, b, b)
-		u.assume(st, fmt.Sprintf("(=> (not (= %s 0)) (and (= %s (+ (* %s %s) %s)) (ite (>= %s 0) (and (<= 0 %s) (< %s %s)) (and (< (- %s) %s) (<= %s 0)))))", b, a, q, b, r, a, r, r, absb, absb, r, r))
-		// sign hints (help the nonlinear solver)
-		u.assume(st, fmt.Sprintf("(=> (and (>= %s 0) (> %s 0)) (>= %s 0))", a, b, q))
+		q, r = fmt.Sprintf("(sdiv %s %s)", a, b), fmt.Sprintf("(smod %s %s)", a, b)
+	}
+	if !strings.Contains(a, "_q") && !strings.Contains(b, "_q") {
+		q = u.em.define("q", "Int", q)
+		r = u.em.define("r", "Int", r)
+		if isUnsigned(ty) {
+			u.assume(st, fmt.Sprintf("(=> (> %s 0) (and (= %s (+ (* %s %s) %s)) (<= 0 %s) (< %s %s) (<= 0 %s)))", b, a, q, b, r, r, r, b, q))
+		} else {
+			absb := fmt.Sprintf("(ite (>= %s 0) %s (- %s))", b, b, b)
+			u.assume(st, fmt.Sprintf("(=> (not (= %s 0)) (and (= %s (+ (* %s %s) %s)) (ite (>= %s 0) (and (<= 0 %s) (< %s %s)) (and (< (- %s) %s) (<= %s 0)))))", b, a, q, b, r, a, r, r, absb, absb, r, r))
+			u.assume(st, fmt.Sprintf("(=> (and (>= %s 0) (> %s 0)) (>= %s 0))", a, b, q))
+		}
 	}
 	if wantMod {
 		return r
